@@ -273,6 +273,8 @@ def describe(net: Net) -> dict:
 
 
 def from_description(d) -> Net:
+    if 'deep' in d:   # compact form of a deep chain: regenerated from its seed
+        return deep_net(random.Random(d['dseed']), d['deep'], n_in=d.get('n_in', 3), types=d.get('types'))
     gates = {i: ('INPUT', ()) for i in d['inputs']}
     for l, t, ops in d['gates']:
         gates[l] = (t, tuple(ops))
@@ -331,6 +333,14 @@ def relabel(net: Net, mapping) -> Net:
 
 
 # ---------------------------------------------------------------- public-API edits (well-formedness preserving)
+
+def deep_description(rng: random.Random, depths, n_in=None, types=None) -> dict:
+    return {'deep': rng.choice(list(depths)), 'dseed': rng.getrandbits(32), 'n_in': n_in or rng.randint(2, 3), 'types': types}
+
+
+DEEP_QUICK = [1200, 2500, 4000]
+DEEP_THOROUGH = [900, 1000, 1100, 1500, 3000, 6000]
+
 
 def random_edits(c, rng: random.Random, k=None, allow_into_bench=True, allow_interface=True):
     """Apply k random *valid* public mutations to circuit `c` in place, so that the
@@ -418,3 +428,28 @@ def scribble(c, rng: random.Random):
             c.set_inputs(list(reversed(c.inputs)))
     except Exception:
         pass
+
+
+def deep_net(rng: random.Random, depth: int, n_in: int = 3, types=None, unary=('NOT', 'IFF'), side_p=0.1) -> Net:
+    """A netlist whose longest dependency chain has `depth` gates (long ripple / iterated constructions): each link
+    combines the previous link with an input or an earlier link.  Few inputs, so the reference truth table stays tiny
+    whatever the depth.  Code that recurses once per logic level fails on these under the default recursion limit."""
+    types = types or ['AND', 'OR', 'XOR', 'NAND', 'NOR', 'NXOR', 'GT', 'LT', 'GEQ', 'LEQ', 'NOT', 'IFF', 'LNOT', 'RIFF']
+    ins = ['x%d' % i for i in range(n_in)]
+    g = {i: ('INPUT', ()) for i in ins}
+    prev = ins[0]
+    links = []
+    for k in range(depth):
+        t = rng.choice(types)
+        l = 'd%d' % k
+        if t in unary:
+            g[l] = (t, (prev,))
+        else:
+            other = rng.choice(ins) if (not links or rng.random() > side_p) else rng.choice(links[-50:])
+            g[l] = (t, (prev, other) if rng.random() < 0.5 else (other, prev))
+        links.append(l)
+        prev = l
+    outs = [prev]
+    if depth > 2 and rng.random() < 0.5:
+        outs.append(links[depth // 2])
+    return Net(ins, outs, g)
